@@ -375,6 +375,14 @@ def run_actions(actions, phase, ctx):
             if root:
                 sys.path[:] = [x for x in sys.path
                                if not x.startswith(root)]
+        elif do == 'chdir':
+            # a test that works in a scratch directory and does not go back
+            # (path relative to the world's root)
+            root = os.path.dirname(os.environ.get('ZTR_WORLD', ''))
+            d = os.path.join(root, a.get('path', 'work'))
+            os.makedirs(d, exist_ok=True)
+            os.chdir(d)
+            emit('chdir', ctx=ctx, to=a.get('path', 'work'))
         elif do == 'write_file':
             with open(a['path'], 'w') as f:
                 f.write(a.get('text', ''))
